@@ -326,8 +326,8 @@ def findPrim (dsl : Dsl) (name : Str) : Option (Str × TyO) := dsl.find? (fun p 
     everything else is reported as ValueError (signs, blanks and underscores that Python's
     `int` also accepts are outside the model, see meta assumptions). -/
 def parseNat (s : Str) : Option Nat :=
-  if s = [] ∨ !s.all isDigit then none
-  else some (s.foldl (fun acc c => acc * 10 + (c.toNat - '0'.toNat)) 0)
+  if s = [] ∨ !s.all Char.isDigit then none
+  else some (Nat.ofDigitChars 10 s 0)
 
 /-- the `else` branch of `parse_program` (dsl.py:255-269): one word -/
 def parseAtom (dsl : Dsl) (tr : TyO) (consts : Consts) (word : Str) : Res Prog :=
